@@ -23,7 +23,8 @@ VARIABLES pick,   \* the chosen <<configuration, data seed>>
           case    \* <<>> until the case has been computed from `pick`
 vars == <<pick, case>>
 
-Distinct(seed, i) == (i * (7 + 6 * (seed % 3))) % 211          \* injective for i < 211
+\* injective for i < 211; signed, so that some windows hold only negative values
+Distinct(seed, i) == ((i * (7 + 6 * (seed % 3))) % 211) - 105
 
 Hash(c) == c.h*3 + c.w*5 + c.kh*7 + c.kw*11 + c.sh*13 + c.sw*17 + c.ph*19 + c.pw*23 + c.dh*29 + c.dw*31
            + c.c*37 + c.f*41 + (IF c.act = "relu" THEN 43 ELSE 0)
